@@ -44,7 +44,9 @@ func parseLoadFile94(reader io.Reader, coresize Address) (WarriorData, error) {
 			} else if strings.HasPrefix(lower, ";author") {
 				data.Author = strings.TrimSpace(raw_line[7:])
 			} else if strings.HasPrefix(lower, ";strategy") {
-				data.Strategy += raw_line[10:]
+				if len(raw_line) > 10 {
+					data.Strategy += raw_line[10:]
+				}
 			}
 			continue
 		}
@@ -303,7 +305,9 @@ func parseLoadFile88(reader io.Reader, coresize Address) (WarriorData, error) {
 			} else if strings.HasPrefix(lower, ";author") {
 				data.Author = strings.TrimSpace(raw_line[7:])
 			} else if strings.HasPrefix(lower, ";strategy") {
-				data.Strategy += raw_line[10:]
+				if len(raw_line) > 10 {
+					data.Strategy += raw_line[10:]
+				}
 			}
 			continue
 		}
